@@ -21,7 +21,7 @@ def does_bits_match_range(number_of_bits, minimum, maximum):
 class _Generator(Generator):
 
     def format_real(self):
-        return []
+        raise self.error("Unsupported type 'REAL'.")
 
     def get_enumerated_values(self, type_):
         return sorted([(canonical(data), value)
